@@ -7,7 +7,7 @@ Open Scope list_scope.
 
 (* ---------- outcomes ---------- *)
 Definition xerr (e : err) : Prop :=
-  match e with EMissing _ | EUnclosed _ | ECycle _ => True | _ => False end.
+  match e with EMissing _ | EUnclosed _ | ECycle _ | ETooDeep _ => True | _ => False end.
 (* value or typed expansion error: not Panic, not Fuel *)
 Definition total {A} (x : res A) : Prop :=
   match x with Ok _ => True | Err e => xerr e | Panic _ => False | Fuel => False end.
@@ -125,6 +125,7 @@ Proof.
   intros Hrec. induction segs as [|[l|k] t IH]; cbn [subst]; [exact I| |].
   - destruct (subst r pol rec seen t); cbn in *; try exact I; exact IH.
   - destruct (mem_str k seen) eqn:Es; [exact I|].
+    destruct (Nat.leb max_depth (length seen)); [exact I|].
     destruct (alookup k r) as [v|] eqn:El.
     + specialize (Hrec k v Es El). destruct (rec (k :: seen) v); cbn in *; try exact Hrec; try exact I.
       destruct (subst r pol rec seen t); cbn in *; try exact I; exact IH.
@@ -272,6 +273,7 @@ Proof. destruct x; cbn [rbind]; rewrite ?app_nil_r; reflexivity. Qed.
 
 Definition value_of (r : fenv) (pol : policy) (fuel : nat) (seen : list str) (k : str) : res str :=
   if mem_str k seen then Err (ECycle k)
+  else if Nat.leb max_depth (length seen) then Err (ETooDeep k)
   else match alookup k r with
        | Some v => expand_rec r pol fuel (k :: seen) v
        | None => missing_value pol k
@@ -289,6 +291,7 @@ Proof.
   rewrite scan_ref by (auto; lia). rewrite has_db_false_scan by exact Ht.
   cbn [rev app subst]. unfold value_of.
   destruct (mem_str k seen); [reflexivity|].
+  destruct (Nat.leb max_depth (length seen)); [reflexivity|].
   destruct (alookup k r) as [v|].
   - cbn [andb]. apply nest3.
   - cbn [andb]. apply nest3.
@@ -524,7 +527,7 @@ Proof. intros H. unfold eval. rewrite H. reflexivity. Qed.
 (* expand_eval: value or typed error, never Panic/Fuel *)
 Definition xtotalP (NA : Prop) {A} (x : res A) : Prop :=
   match x with Ok _ => True
-             | Err (EMissing _ | EUnclosed _ | ECycle _ | EExpr _) => True
+             | Err (EMissing _ | EUnclosed _ | ECycle _ | ETooDeep _ | EExpr _) => True
              | Err (ENeedEv _) => NA
              | _ => False end.
 
@@ -544,7 +547,7 @@ Proof. intros H. apply expand_eval_totalP. intros x E. exact (H x E). Qed.
 Theorem expand_eval_total_real : forall EV (r : fenv) pol f, ev_real EV ->
   match expand_eval EV r pol f with
   | Ok _ => True
-  | Err (EMissing _ | EUnclosed _ | ECycle _ | EExpr _) => True
+  | Err (EMissing _ | EUnclosed _ | ECycle _ | ETooDeep _ | EExpr _) => True
   | _ => False
   end.
 Proof.
@@ -557,4 +560,24 @@ Theorem eval_total_real' : forall EV s, ev_real EV ->
 Proof.
   intros EV s H. pose proof (eval_total_real EV s H) as T. unfold etotalP in T.
   destruct (eval EV s) as [v|e| |]; [exact T | destruct e; exact T | exact T | exact T].
+Qed.
+
+(* ---------- the depth limit (fix: a typed error instead of a stack overflow) ---------- *)
+(* a reference met max_depth levels down is not followed: the recursion depth never exceeds max_depth *)
+Theorem expand_rec_too_deep (r : fenv) pol fuel seen (l k t : str) :
+  has_db l = false -> is_bslash (last_byte None l) = false ->
+  (forall c, In c k -> c <> ch_rbrace) -> has_db t = false ->
+  ~ In k seen -> max_depth <= length seen ->
+  expand_rec r pol (S fuel) seen (l ++ ch_dollar :: ch_lbrace :: k ++ ch_rbrace :: t) = Err (ETooDeep k).
+Proof.
+  intros Hl Hb Hk Ht Hni Hd. rewrite expand_rec_one_ref by assumption. unfold value_of.
+  destruct (mem_str k seen) eqn:Em; [exfalso; apply Hni, mem_str_In, Em|].
+  apply Nat.leb_le in Hd. rewrite Hd. reflexivity.
+Qed.
+(* above the limit nothing changes: value_of follows the reference as before *)
+Theorem value_of_below_limit (r : fenv) pol fuel seen k v :
+  mem_str k seen = false -> length seen < max_depth -> alookup k r = Some v ->
+  value_of r pol fuel seen k = expand_rec r pol fuel (k :: seen) v.
+Proof.
+  intros Hm Hd Hl. unfold value_of. rewrite Hm. apply Nat.leb_gt in Hd. rewrite Hd, Hl. reflexivity.
 Qed.
